@@ -354,3 +354,19 @@ PROPS["C16"] = {
     "counter_floors": {"quick": {"copy_twin_checks": 8000, "query_twin_checks": 15000, "wrapper_twin_checks": 100000, "query_or_normalize_steps": 2000}},
     "assumptions": _POOL_ASSUME,
 }
+
+ENGINES[3]["serves_properties"] = ["C01", "C02", "C03", "C04", "C05", "C09", "C10", "C11", "C12", "C14", "C16", "C18"]
+ENGINES[3]["path"] += ", e_flow.cc"
+PROPS["C18"] = {
+    "technique": "perturbation monitor: concrete executions of the reference interpreter are forked at block boundaries into two branches that differ in one variable and replay the same pseudo-random choices; the observable traces are compared against what liveness (dead_exit / live-out) and the assertion crawler report for that block",
+    "level_text": "generated CFGs (loops, dead ends, blocks ending in unreachable, optional function declaration with inputs/outputs, synthesised assertions) are given to the real live_and_dead_analysis and assertion_crawler (with and without control dependences); along 4 executions per initial state up to 60 forks: a variable reported dead at the end of a block is changed there and every successor is continued twice - block sequence, assume/assert outcomes and function outputs must coincide; a variable is changed at a block entry and, while both branches follow the same path, a different value of an assertion's condition means the variable must be listed for that assertion at that block; every assertion evaluated after a block must be listed for it. Held on the executions run.",
+    "level_note": "visits that block (false assume, unreachable) belong to infeasible paths and are dropped from traces; branches cut by the interpreter or by the statement budget are inconclusive (counted); calls, arrays and regions are not generated for this engine",
+    "rule": "a case is one CFG with its liveness and crawler results; non-trivial = at least one liveness fork and one crawler fork were compared; distinct = hash of program + configuration",
+    "jobs": {
+        "quick": [{"name": "flow", "bin": "crabv", "engine": "flow", "cases": 60000}],
+        "thorough": [{"name": "flow", "bin": "crabv", "engine": "flow", "cases": 600000}],
+    },
+    "floor": {"quick": 30000, "thorough": 300000},
+    "counter_floors": {"quick": {"liveness_forks": 600000, "crawler_flows_detected": 80000, "crawler_reachable_assertions_checked": 3000000}},
+    "assumptions": ["the reference interpreter's semantics (DESIGN 3.4); the two branches of a fork consume the same pseudo-random stream, so havoc values and successor choices coincide while the paths coincide"],
+}
